@@ -7,7 +7,7 @@ P=$(readlink -f "$1"); PROP=$2; TIER=${3:-quick}
 WT=/tmp/wt_try_$$
 git -C /repo worktree add -q --detach "$WT" HEAD || exit 3
 git -C "$WT" apply "$P" || { echo "patch does not apply"; git -C /repo worktree remove --force "$WT"; exit 3; }
-( cd /verif && VERIF_EVIDENCE_DIR=/tmp/verif_evidence_seeded VERIF_REPO="$WT" ./check "$PROP" --tier "$TIER" ); RC=$?
+( cd ${VERIF_HOME:-/verif} && VERIF_EVIDENCE_DIR=/tmp/verif_evidence_seeded VERIF_REPO="$WT" ./check "$PROP" --tier "$TIER" ); RC=$?
 git -C /repo worktree remove --force "$WT"
 echo "exit=$RC"
 exit $RC
